@@ -98,7 +98,7 @@ end
 /-! ### the two integers ±2^53
 
 2^53 is still exactly a double (its neighbour 2^53 + 1 is the first integer that is not); the
-builders of C08 admit it as an anchoring bound. It is outside `canon_ofNat` (whose proof uses
+builders of C08 accept it as an anchoring bound. It is outside `canon_ofNat` (whose proof uses
 `n < 2^53` for the 53-bit mantissa), so the kernel evaluates the printer on it. -/
 
 theorem canon_two_pow_53 : (JNum.ofNat 9007199254740992).canon = some (natDigits 9007199254740992) := by decide
